@@ -7,14 +7,15 @@ mkdir -p "$OUT"
 cd "$ROOT" || exit 2
 env -u COGENT3_VERIF PYTHONPATH="$ROOT/src" /venv/bin/python -m pytest -q -p no:cacheprovider --timeout=900 \
   --continue-on-collection-errors -n 14 --junitxml="$OUT/junit.xml" -q >"$OUT/log" 2>&1
-/venv/bin/python - "$OUT/junit.xml" <<'PY'
-import json, sys, xml.etree.ElementTree as ET
+SUITE_ROOT="$ROOT" /venv/bin/python - "$OUT/junit.xml" <<'PY'
+import json, os, sys, xml.etree.ElementTree as ET
+ROOT = os.environ.get("SUITE_ROOT", "/repo")
 base = set(json.load(open('/root/.vp/BASELINE.json'))['stable_pass'])
 root = ET.parse(sys.argv[1]).getroot()
 passed = set()
 for tc in root.iter('testcase'):
     bad = any(ch.tag in ('failure', 'error', 'skipped') for ch in tc)
-    name = f"{tc.get('classname')}::{tc.get('name')}"
+    name = f"{tc.get('classname')}::{tc.get('name')}".replace(ROOT + "/", "/repo/")
     if not bad:
         passed.add(name)
 missing = sorted(base - passed)
